@@ -1380,7 +1380,9 @@ def C19(ctx):
         acc = np.array(g.rows(), dtype=int)
         lm = {u: [succ(u, j, k) for j in g.live(u)] for u in g.vertices()}
         steps = 0
-        maxsteps = rng.choice([1, 3, 10, 10 ** 6 if ctx.thorough else 12])
+        maxsteps = rng.choice([1, 3, 10, 60 if ctx.thorough else 12])
+        if k >= 4:
+            maxsteps = min(maxsteps, 4)      # scoring an order-4 graph is slow in the real code
         while steps < maxsteps:
             a_tok, l_tok = proto.enc_acc(acc), proto.enc_lmap(lm)
             sc_txt = ctx.corr("cis %s %d %d %d" % (l_tok, k, ins, dele))
